@@ -213,6 +213,40 @@ ONE={
 "C16-B9":("sync update re-stamps the shared entry info only if it is not already dirty","ttl/tti; two writes of a key without maintenance in between; iterate between the first and the second write's deadline"),
 "C17-A9":("sync `invalidate` queues no Remove op for a not yet admitted entry (as C10-B7)","invalidate racing `handle_upsert` of the same key: real threads"),
 "C17-B9":("unsync `initial_capacity` pre-sizes the popularity sketch","initial_capacity in the same power-of-two bracket as max_capacity; get before half full, fill, insert"),
+"C01-A10":("unsync `insert`: oversize rejection moved up as an early return (as C01-B2)","weigher; update of a cached key with weight > max_capacity keeps the stale value"),
+"C01-B10":("deprecated `get_if_present` served by a new `peek` whose expiry check is guarded by `has_expiry()` only","no ttl/tti; insert, invalidate_all (also through a clone), get_if_present before the sweep"),
+"C03-A10":("sync `Inner::sync` computes the excess before purging expired entries (as C12-A5)","weigher + expiry; expired unpurged entry and a growing update in one maintenance run"),
+"C03-B10":("sync `build_with_hasher` passes ttl and tti swapped (as C17-B)","custom hasher; tti only; entry read regularly, looked up after insert + tti"),
+"C04-A10":("sync `Inner::sync` snapshots the counters before taking the maintenance lock (as C08-A)","explicit sync() overlapping another maintenance run"),
+"C04-B10":("sync capacity eviction moved to the end of `apply_writes` (runs only when writes were applied)","an excess needing more than 500 evictions, followed by read-only operations and sync() calls"),
+"C05-A10":("sync lookup paths use one merged expiry helper whose tti block returns before the ttl block","ttl and tti both set; entry kept busy by applied reads; lookup at insert + ttl before the sweep"),
+"C05-B10":("sync iterator reads the clock once at `iter()` (as C05-B2)","iterator (also `&cache` into_iter / Debug) held open across the deadline"),
+"C06-A10":("sync `apply_reads` clamps the timestamps of one batch to be non-decreasing","two readers whose hits are queued in the opposite order of their clock readings, applied by one run"),
+"C06-B10":("unsync `get` and `contains_key` drop the per-entry expiry test after the purge","more than 100 entries idle-expired between two calls; lookup beyond the first batch"),
+"C08-A10":("sync `Inner::sync` snapshots the counters before taking the maintenance lock (as C08-A)","explicit sync() overlapping another maintenance run"),
+"C08-B10":("unsync `has_enough_capacity`: `candidate <= limit - ws` (as C08-A5)","cache still over capacity when a new key arrives (growth larger than one eviction batch can remove)"),
+"C09-A10":("sync `get`: merged miss arms keep the shard guard across `record_read_op` (as C09-A)","get of an expired or hidden, unpurged key that itself triggers maintenance (self-deadlock)"),
+"C09-B10":("operation queues sized `initial_capacity.clamp(1, 384)`","initial_capacity < 64; idle for more than 500 ms; then more inserts than the queue holds"),
+"C10-A10":("sync `Inner::sync` snapshots the counters before taking the maintenance lock (as C08-A)","explicit sync() overlapping another maintenance run"),
+"C10-B10":("unsync `insert` over an expired, unpurged entry unlinks it and admits the value as new without giving back count and weight","ttl/tti; more than 100 entries expired at once; rewrite of a key beyond the first purge batch"),
+"C11-A10":("sync `handle_upsert` returns early for a candidate hidden by invalidate_all (\"the sweep takes it\")","full cache; insert of a new key still queued; invalidate_all at a later reading; sync"),
+"C11-B10":("unsync `handle_update` rejects an oversized replacement without unlinking the old nodes","weigher; resident key re-inserted with weight > max_capacity"),
+"C13-A10":("sync `admit` passes over victims with an unapplied write (as C12-B9)","insert(newcomer) directly followed by an update of the popular LRU resident"),
+"C13-B10":("deprecated `get_if_present` returns early on `!contains_key`: misses are not recorded","lookups of an absent key through get_if_present, then its insert into a full cache"),
+"C14-A10":("sync `record_read_op`: a full read queue discards the oldest queued lookup instead of the new one","384 more gets while another thread is inside a maintenance run"),
+"C14-B10":("unsync weighted cache keeps re-sizing the sketch (as C14-A4)","weigher; max_capacity > 128; sketch enabled; hundreds more inserts"),
+"C15-A10":("sync `contains_key` records a `ReadOp::Miss` for an expired/hidden unpurged entry (as C15-A)","expiry or invalidate_all; contains_key on the unpurged key; later re-insert into a full cache"),
+"C15-B10":("sync `Debug` calls `sync()` before listing the entries (as C15-A6)","`{:?}` while a write is queued"),
+"C16-A10":("sync `remove_expired_ao`: `remove(key)` instead of `remove_if(expired)` (as C07-A2)","maintenance between node check and map removal while a writer re-inserts the key"),
+"C16-B10":("sync `evict_expired` unsets `valid_after` after its sweep","more than 500 admitted entries when invalidate_all is called, then one maintenance run"),
+"C17-A10":("sync `Inner::new` drops time_to_idle when tti >= ttl","both knobs set with tti >= ttl; policy().time_to_idle()"),
+"C17-B10":("unsync: `initial_capacity` (no weigher) switches the popularity sketch on at build time","gets before the cache is half full, fill, then an insert decided by popularity"),
+"C02-A10":("sync `do_insert_with_hash`: the update writes its value to the map twice (plain insert, then a second insert sharing the old entry info)","overlapping inserts of one present key by two threads: another thread's complete insert between the two writes (A-B-A); real threads only"),
+"C02-B10":("sync admission puts a victim with an unapplied write back into the map after removing it","full cache under admission pressure, trained sketch, an update of the LRU resident still queued, a write of that key in the gap; real threads, long history"),
+"C07-A10":("sync update refreshes last_accessed only when tti is configured","no tti; key present, invalidate_all, re-insert of the key before the sweep"),
+"C07-B10":("sync iterator snapshots ttl, tti and valid_after at creation","iterator (`&cache` into_iter) held across invalidate_all()"),
+"C12-A10":("sync `admit` passes over victims with an unapplied write (as C12-B9)","writer descheduled between its map update and queueing its op while another thread's popular insert is admitted"),
+"C12-B10":("sync `Inner::sync` calls `evict_lru_entries` once more with the amount computed for the first batch","weigher; more than 500 residents; one growth needing more than 500 evictions"),
 "C17-B4":("unsync `with_everything` drops zero durations","time_to_live / time_to_idle of exactly 0"),
 }
 rows=[]
@@ -370,7 +404,41 @@ length), and the single-threaded cache drops none. `C06-A9` repeats `C06-A2`
 too (found-but-expired arms beyond one purge batch, with the counter, drop and
 capacity oracles watching).
 
+Tenth round (ids ending in `10`; all 17 properties; one change per author had to
+involve two mechanisms that are each fine alone or a rarely used entry point,
+the other three or more threads / a three-step interleaving, or a long history).
+25 of 34 caught at once by the property's own check or a neighbour. Strengthened
+after misses: `C02-A10` (STRESS of C02: a value a reader has seen replaced must not
+come back once the replacing insert has completed), `C02-B10` (new STRESS workload
+"one writer per key beside threads that force admissions": the cache holds only
+owned keys, fresh keys are made maximally popular and offered, so admissions keep
+evicting owned keys whose updates are still queued; the writer's own get may only
+show nothing or its last value), `C03-A10` (half of the concurrent cases of the
+C03 profile are synced after every operation, where the lock-step model and the
+loss oracle follow caches with ttl/tti; also reported by C12's new eviction-amount
+monitor), `C12-B10` (the eviction-amount monitor, §9: "only as many as needed" for
+caches of any size), `C06-A10` (litmus program "get(a) || advance; get(b);
+advance; sync; get(a)" for reads of two keys recorded out of clock order),
+`C13-B10` (C14's lower bound mistook a lookup that queues nothing for one dropped
+by a full read queue; the queue's capacity is now read through a hook, so only a
+lookup that met a full queue counts as dropped). `C04-A10` and `C10-A10` (the
+counters read before the maintenance lock, as `C08-A`) make the library's own
+`debug_assert_eq!` fire under real threads: C04 / C10 answer "inconclusive" (exit
+2, now within seconds: a panic on a STRESS thread ends the worker at once instead
+of leaving the others spinning until the watchdog) and C08 reports it.
+
 Not caught (or caught only elsewhere), with the reason:
+* `C14-A10` — a full read queue discards the *oldest* queued lookup instead of the
+  new one. Which lookups a full queue sacrifices is the cache's choice; the
+  statement only bounds what is recorded ("each at most once") and promises the
+  lower bound for lookups that were not dropped, which C14 checks over stretches
+  in which the queue never filled.
+* `C12-A10` — the interleaving variant of `C12-B9` / `C13-A10` (both caught): a
+  writer descheduled between its map update and the queueing of its operation
+  while another thread's admission picks that very key. SCHED has no lock-step
+  policy model (it would need the run-by-run model driven by the scheduler trace),
+  and passing over an entry whose update is in flight is in the grey zone of C12
+  noted under `C12-B3`.
 * `C13-A5` — needs five invalidations still queued behind the newcomer's insert.
   How many invalidated keys a victim walk passes over before it gives up is a
   tuning constant (with six the unchanged code itself rejects the newcomer), so
